@@ -16,7 +16,9 @@ RULE = ('cipher: every (position mod 143, byte) pair in both directions plus byt
         'random longer ones; programs: typed programs (varied statements, all constant kinds, long lines, line numbers '
         'up to 65529, bytes 1..255 in strings/REM/DATA) and hand-assembled tokenised images (all byte values in '
         'literals/REM/DATA/constant payloads, line numbers up to 65535, bytes behind the program); each program goes '
-        'through multi-step histories of edits, SAVE (tokenised/,A/,P), NEW, LOAD, MERGE; a case = one cipher string, '
+        'through multi-step histories of edits, SAVE (tokenised/,A/,P), NEW, LOAD, MERGE, CHAIN MERGE; ASCII: lines whose listing is '
+        '253..258 characters (REM / string padding, ? listed as PRINT) in first, inner and last position, and hand-written '
+        'files with blank lines, CR / LF / CRLF line ends, missing or early 1A; a case = one cipher string, '
         'one SAVE, one LOAD, one MERGE, one conversion or one damaged file; non-trivial = program with at least one line')
 EXPLANATION = ('theorems (PcbV.Props.C15): cipher_bijection for any key tables and every index, stream round trips in '
                'both directions incl. the dropped end byte, rebuild_line_dict is the identity on well-formed images, '
@@ -374,34 +376,40 @@ class Runner(object):
         buf = p.bytecode.getvalue()
         return buf, p.size(), bool(p.protected)
 
-    @staticmethod
-    def listing(s):
+    console_list = True
+
+    def listing(self, s):
         """What LIST shows: the lister's lines, plus the console output of a real LIST for short programs
         (LIST scrolls the emulated screen, which is slow)."""
         p = s._impl.program
         if p.protected:
             return ('protected', s.execute(b'LIST'))
         lines = tuple(p.list_lines(None, None))
-        return (lines, s.execute(b'LIST') if len(lines) <= 6 else None)
+        return (lines, s.execute(b'LIST') if len(lines) <= 6 and self.console_list else None)
 
     def reentry_memory(self, listing_groups):
         """Program memory after typing the given listings into a fresh program (None if impossible)."""
+        return self.reentry_state(listing_groups)[0]
+
+    def reentry_state(self, listing_groups):
+        """(program memory, listing) after typing the given listings into a fresh program; (None, None) if
+        impossible"""
         s2, _ = self.session('reentry')
         try:
             s2.execute(b'NEW')
             for lines in listing_groups:
                 for l in lines:
                     if b'\r' in l or b'\n' in l or len(l) > 255:
-                        return None
+                        return None, None
                     s2.execute(l)
         except Exception:
             # the tokeniser let a host exception escape on this listing (e.g. '&O0  75'): not re-enterable;
             # reported separately, outside this property.  The session is discarded.
             self.ctx.count('reentry:host-exception')
             self.sessions.pop('reentry')
-            return None
+            return None, None
         buf, size, _ = self.state(s2)
-        return buf[:size]
+        return buf[:size], self.listing(s2)
 
     def run(self, sc):
         """Run one scenario; returns list of (key, what) oracle failures (also registered with ctx)."""
@@ -413,6 +421,7 @@ class Runner(object):
             ctx.fail(key, sc, what)
 
         hide = sc.get('hide', 0)
+        self.console_list = not sc.get('nolist', False)
         s, d = self.session(hide)
         for fn in os.listdir(d):
             os.unlink(os.path.join(d, fn))
@@ -443,6 +452,20 @@ class Runner(object):
                 with open(os.path.join(d, op[1] + '.BAS'), 'wb') as f:
                     f.write(unhx(op[2]))
                 snaps[op[1]] = {'fmt': 'raw', 'file': unhx(op[2])}
+            elif kind == 'afile':
+                # a hand-written ASCII program file: op[3] = the program lines it is made of (before the first 1A);
+                # what it must load as is what typing those lines gives
+                data, flines = unhx(op[2]), [unhx(l) for l in op[3]]
+                with open(os.path.join(d, op[1] + '.BAS'), 'wb') as f:
+                    f.write(data)
+                re_mem, re_listing = self.reentry_state([flines])
+                snaps[op[1]] = {'fmt': 'A', 'file': data, 'lines': flines, 'mem': re_mem, 'exp_mem': re_mem,
+                                'listing': re_listing, 'exp_listing': re_listing, 'prot': False, 'tok': False,
+                                'reenters': re_mem is not None, 'handwritten': True}
+                ctx.count('ascii-file:handwritten')
+                for l in flines:
+                    if 253 <= len(l) <= 255:
+                        ctx.count('ascii-file:line-length-%d' % len(l))
             elif kind == 'save':
                 name, fmt = op[1], op[2]
                 buf, size, prot = self.state(s)
@@ -487,10 +510,22 @@ class Runner(object):
                     framing = all(0x1a not in l and b'\r' not in l and b'\n' not in l and len(l) <= 255
                                   for l in lines)
                     snap['framing'] = framing
-                    re_mem = self.reentry_memory([lines]) if framing else None
+                    re_mem, re_listing = self.reentry_state([lines]) if framing else (None, None)
                     snap['reenters'] = framing and (re_mem == mem or (tok and re_mem is not None and eof_only(re_mem, mem)))
-                    ctx.count('ascii:reenters' if snap['reenters'] else
-                              ('ascii:hypothesis-false' if framing else 'ascii:framing-bytes-or-long-line'))
+                    snap['exp_mem'], snap['exp_listing'] = mem, listing
+                    if framing and not snap['reenters'] and re_mem is not None and list(re_listing[0]) == lines:
+                        # the listing is not the listing of THIS program only: typing it gives a program P' with the
+                        # very same listing (e.g. a line cut to 255 characters by the lister), so the file is also
+                        # what SAVE,A writes for P' and the statement applies to P'
+                        snap['reenters'] = True
+                        snap['exp_mem'], snap['exp_listing'] = re_mem, re_listing
+                        ctx.count('ascii:reenters-as-fixpoint')
+                    else:
+                        ctx.count('ascii:reenters' if snap['reenters'] else
+                                  ('ascii:hypothesis-false' if framing else 'ascii:framing-bytes-or-long-line'))
+                    for i, l in enumerate(lines):
+                        if 253 <= len(l) <= 258:
+                            ctx.count('ascii:listing-length-%d-%s' % (len(l), 'last' if i == len(lines) - 1 else 'inner'))
                 # saving the loaded program again in the same format must give the same file
                 if last_loaded and last_loaded[1] == fmt and fmt in 'BP':
                     prev = snaps[last_loaded[0]]['file']
@@ -500,13 +535,18 @@ class Runner(object):
                             fail(KNOWN_EOF_FILE, 'LOAD then SAVE of a tokenised file appends one more 1A')
                         else:
                             fail('resave:%s' % fmt, 'LOAD then SAVE gave a different file')
-            elif kind in ('load', 'merge'):
+            elif kind in ('load', 'merge', 'chainmerge'):
                 name = op[1]
                 snap = snaps.get(name)
+                if kind == 'chainmerge':
+                    # CHAIN MERGE run from a program line; execution continues at a line that just ends
+                    s.execute(b'1 CHAIN MERGE "%s",65529' % name.encode())
+                    s.execute(b'65529 END')
                 before_buf, before_size, before_prot = self.state(s)
                 base_lines = None if before_prot else s._impl.program.list_lines(None, None)
                 try:
-                    out = s.execute((b'LOAD "%s"' if kind == 'load' else b'MERGE "%s"') % name.encode())
+                    out = s.execute({'load': b'LOAD "%s"' % name.encode(), 'merge': b'MERGE "%s"' % name.encode(),
+                                     'chainmerge': b'RUN'}[kind])
                 except Exception as e:
                     self.sessions.pop(hide)
                     if snap is not None and snap['fmt'] == 'A' and not snap['reenters']:
@@ -566,7 +606,7 @@ class Runner(object):
                         continue
                     tok_before = tok or snap['tok']
                     if kind == 'load':
-                        exp = snap['mem']
+                        exp = snap['exp_mem']
                         tok = False
                     else:
                         base = None if base_lines is None else self.reentry_memory([base_lines])
@@ -584,7 +624,7 @@ class Runner(object):
                         else:
                             fail('memory:A:%s' % kind, 'program memory after %s of the ASCII file differs from '
                                  'typing the listing' % kind)
-                    elif kind == 'load' and self.listing(s) != snap['listing']:
+                    elif kind == 'load' and self.listing(s) != snap['exp_listing']:
                         fail('listing:A', 'LIST after LOAD of the ASCII file differs from LIST at SAVE')
                     ctx.count('%s:A:checked' % kind)
         if self.n > 400:
@@ -706,6 +746,90 @@ def boundary_scenarios():
             yield {'kind': 'boundary', 'hide': hide, 'ops': ops}
 
 
+def padded_line(num, length, kind, rng=None):
+    """(typed form, listed form) of a program line whose LISTING is `length` characters long, number included.
+    rem / str: padding inside a REM or a string literal; expand: '?' is listed as PRINT, so the typed line is much
+    shorter than its listing."""
+    head = b'%d ' % num
+
+    def pad(n):
+        return bytes(rng.choice(PRINTABLE) for _ in range(n)).replace(b':', b';') if rng else b'*' * n
+    if kind == 'rem':
+        line = head + b'REM ' + pad(length - len(head) - 4)
+        return line, line
+    if kind == 'str':
+        line = head + b'A$="' + pad(length - len(head) - 5) + b'"'
+        return line, line
+    k = 30
+    n = length - (len(head) + 5 * k + (k - 1) + 5)
+    tail = b':REM ' + pad(n)
+    return head + b':'.join([b'?'] * k) + tail, head + b':'.join([b'PRINT'] * k) + tail
+
+
+SEPARATORS = [b'\r\n', b'\r\n', b'\r', b'\n', b'\r\n\r\n', b'\r\r', b'\n\n', b'\r\n   \r\n', b'\r\n\n', b'\r\n\r\n\r\n']
+ENDINGS = [b'\r\n\x1a', b'\r\n', b'', b'\x1a', b'\r\x1a', b'\r\n\r\n\x1a', b'\r\n\x1a30000 REM behind the end-of-file byte\r\n\x1a',
+           b'\n', b'\r\n\x1a\x1a']
+
+
+def ascii_scenario(pairs, seps, lead, ending):
+    """pairs = (typed, listed) program lines (numbers 10..); the program is typed, saved with ,A and read back with
+    LOAD, MERGE and CHAIN MERGE; then the same for a hand-written file with the given separators."""
+    ops = [['type', hx(ty)] for ty, _ in pairs]
+    ops += [['save', 'SA', 'A'], ['new'], ['load', 'SA'], ['new'], ['type', hx(b'5 REM base')], ['merge', 'SA'],
+            ['new'], ['type', hx(b'7 REM base')], ['chainmerge', 'SA']]
+    listed = [li for _, li in pairs]
+    if all(len(l) <= 255 for l in listed):
+        if len(listed[-1]) >= 255 and ending[:1] not in (b'\r', b'\n'):
+            # a last line that fills the 255-character line buffer and is followed directly by the end of the file
+            # (no line end at all) is reported as Line buffer overflow; no SAVE writes such a file and the
+            # statement says nothing about it, so it is not generated (observation passed on in the C15 report)
+            ending = b'\r\n' + ending
+        data = lead
+        for i, l in enumerate(listed):
+            data += l + (seps[i % len(seps)] if i < len(listed) - 1 else b'')
+        data += ending
+        ops += [['new'], ['afile', 'HW', hx(data), [hx(l) for l in listed]], ['load', 'HW'],
+                ['type', hx(b'5 REM base')], ['type', hx(b'20')] if len(listed) > 1 else ['new'],
+                ['merge', 'HW'], ['new'], ['type', hx(b'7 REM base')], ['chainmerge', 'HW']]
+    return {'kind': 'ascii', 'hide': 0, 'nolist': True, 'ops': ops}
+
+
+def ascii_boundary_scenarios():
+    """listing lengths around the 255-character line buffer, in first / inner / last position"""
+    i = 0
+    for length in (253, 254, 255, 256, 257):
+        for kind in ('rem', 'str', 'expand'):
+            for pos in (0, 1, 2):
+                pairs = [(b'10 A=1', b'10 A=1'), (b'20 PRINT A', b'20 PRINT A'), (b'30 GOTO 10', b'30 GOTO 10')]
+                pairs[pos] = padded_line(10 * (pos + 1), length, kind)
+                yield ascii_scenario(pairs, [SEPARATORS[i % len(SEPARATORS)], SEPARATORS[(i + 3) % len(SEPARATORS)]],
+                                     b'' if i % 4 else b'\r\n', ENDINGS[i % len(ENDINGS)])
+                i += 1
+    # blank lines, lone CR / LF and an end-of-file byte in the middle, with ordinary lines
+    plain = [(b'10 A=1', b'10 A=1'), (b'20 PRINT A', b'20 PRINT A'), (b'30 GOTO 10', b'30 GOTO 10'),
+             (b'40 DATA 1,2', b'40 DATA 1,2')]
+    for j, sep in enumerate(SEPARATORS):
+        for ending in ENDINGS[j % 2::2]:
+            yield ascii_scenario(plain, [sep], b'\r\n\r\n' if j % 3 == 0 else b'', ending)
+
+
+def random_ascii_scenario(rng):
+    n = rng.randrange(2, 7)
+    pairs = []
+    for i in range(n):
+        num = 10 * (i + 1)
+        if rng.random() < 0.4:
+            pairs.append(padded_line(num, rng.choice([250, 253, 254, 255, 255, 255, 256, 258]) if rng.random() < 0.8
+                                     else rng.randrange(200, 259), rng.choice(['rem', 'str', 'expand']), rng))
+        else:
+            l = rand_line(rng, num, [10, 20], False)
+            pairs.append((l, l))     # the listed form is only used for the hand-written file
+    if any(ty is li and b'?' in ty for ty, li in pairs):
+        pairs = [(ty, li.replace(b'? ', b'PRINT ')) for ty, li in pairs]
+    return ascii_scenario(pairs, [rng.choice(SEPARATORS) for _ in range(n)], rng.choice([b'', b'', b'\r\n', b'\r', b'\n']),
+                          rng.choice(ENDINGS))
+
+
 def session_part(ctx, runner):
     rng = ctx.rng
     s0, _ = runner.session(0)
@@ -713,6 +837,12 @@ def session_part(ctx, runner):
     for sc in boundary_scenarios():
         runner.run(sc)
         ctx.count('scenario:boundary')
+    for sc in ascii_boundary_scenarios():
+        runner.run(sc)
+        ctx.count('scenario:ascii-boundary')
+    for _ in range(25 if ctx.quick else 1500):
+        runner.run(random_ascii_scenario(rng))
+        ctx.count('scenario:ascii-random')
     n_hist, n_img, n_dmg = (60, 60, 250) if ctx.quick else (1500, 1500, 6000)
     for i in range(n_hist):
         sc = history_scenario(rng, wild=(i % 3 == 0), hide=1 if i % 5 == 4 else 0)
